@@ -424,6 +424,13 @@ def fam_drain(tier, outdir):
                           stride=2 if tier == "quick" else 1)
 
 
+def fam_launch(which, tier, outdir):
+    consts = {"Family": '"%s"' % which, "StdMode": '"all"' if which == "wiring" else '"open"'}
+    cfg = os.path.join(outdir, "MC_Launch_%s.cfg" % which)
+    write_cfg(cfg, "Spec", consts, ["VerdictSane"], view=None, action_constraint=None)
+    return run_tlc_export(which, "MC_Launch", cfg, outdir, tier, asan_stride=2, tlc_workers=8)
+
+
 def fam_destroy(tier, outdir):
     consts = {"Handles": "{1}", "MaxTime": 5, "MaxCalls": 4, "PipeCap": 4, "MaxOut": 0, "ExitCodes": "{3}", "TermDelay": 1,
               "DlOpts": "{0, 2}", "Timeouts": "{0, 2}", "ThirdActs": '"Small"'}
@@ -483,12 +490,16 @@ def run_tlc_plain(name, module, cfgpath, outdir, timeout=1500, workers=8):
     return st
 
 
-FAMILIES = {"destroy": fam_destroy, "status": fam_status, "run": fam_run, "stop": fam_stop, "life": fam_life, "poll": fam_poll, "stream": fam_stream, "drain": fam_drain}
+FAMILIES = {"wiring": lambda t, o: fam_launch("wiring", t, o), "options": lambda t, o: fam_launch("options", t, o),
+            "destroy": fam_destroy, "status": fam_status, "run": fam_run, "stop": fam_stop, "life": fam_life, "poll": fam_poll, "stream": fam_stream, "drain": fam_drain}
 
 PROPS = {
     "C01": {"families": ["status", "stop"], "title": "exit status exact, stable, reaped once"},
     "C06": {"families": ["stop"], "title": "only the own unreaped child is signalled or waited for"},
     "C07": {"families": ["stop"], "title": "stop sequences"},
+    "C10": {"families": ["wiring"], "title": "each standard stream is connected exactly where the options say"},
+    "C11": {"families": ["wiring"], "title": "nothing else is inherited"},
+    "C13": {"families": ["options"], "title": "options rejected up front, accepted as documented"},
     "C14": {"families": ["life"], "title": "life cycle; misuse errors, never UB"},
     "C02": {"families": ["stream"], "title": "stream fidelity"},
     "C15": {"families": ["destroy"], "title": "destroy applies the stop policy"},
